@@ -61,13 +61,14 @@ def scenario(draw):
         payloads.append(b)
     nfail = draw(st.sampled_from([1, 1, 1, 2, 2, 3]))
     same_instant = nfail > 1 and draw(st.booleans())
+    threads_together = nfail > 1 and draw(st.integers(0, 3)) == 0  # several thread payloads released by one event
     for i in range(nfail):
-        flv = draw(st.sampled_from(ALL))
+        flv = "threading" if threads_together else draw(st.sampled_from(ALL))
         kind, what = draw(kinds_for(flv))
-        reg = draw(st.sampled_from(regs))
+        reg = "pre" if threads_together else draw(st.sampled_from(regs))
         delay = 5 if same_instant else draw(st.sampled_from([0, 0, 1, 5, 20]))
         p = {"id": i + 1, "flavour": flv, "role": "failing", "kind": kind,
-             "program": [["sleep", delay]] if delay else [], "end": ["return", what] if kind == "ret" else ["raise", what]}
+             "program": [["wait", "go"]] if threads_together else [["sleep", delay]] if delay else [], "end": ["return", what] if kind == "ret" else ["raise", what]}
         if reg in ("pre", "pre-service"):
             p["reg"] = {"how": reg}
         elif reg in ("outside", "post-service-outside"):
@@ -83,6 +84,8 @@ def scenario(draw):
         p["regmode"] = reg
         payloads.append(p)
     drivers[0].sort(key=lambda s: s["at_ms"])
+    if threads_together:
+        drivers.append([{"at_ms": draw(st.sampled_from([2, 10])), "op": "set", "name": "go"}])
     sigint = draw(st.integers(0, 9)) == 0
     if sigint:
         drivers.append([{"at_ms": draw(st.sampled_from([0, 5, 40])), "op": "sigint"}])
